@@ -12,7 +12,7 @@ import (
 func init() {
 	register(&Rule{
 		ID:    "C09.dispatch",
-		Props: []string{"C09", "C20"},
+		Props: []string{"C09", "C20", "C02"},
 		Doc:   "Intersects interpreted for all 49 ordered pairs of geometry types: never reaches the trailing panic; after the rank swap every pair is routed to a kernel, and each operand is converted with the MustAs* accessor of its actual type (no arm converts an operand to the wrong type, which would panic) — symmetric by construction because the swap only depends on the ranks",
 		Floor: 49,
 		Run:   runC09Dispatch,
